@@ -159,7 +159,7 @@ def gen_model(rng, p, n_tasks=None):
         comps = []
         for t in tasks:
             if t.get("comp") is not None:
-                comps.append({"id": "c%d" % len(comps), "size": rng.choice([0.8, 0.2, 0.9, 0.1, 0.2, 0.1] if p.get("dec_fit") else TIGHT_SIZES[:5]),
+                comps.append({"id": "c%d" % len(comps), "size": rng.choice([0.8, 0.2, 0.9, 0.1, 0.2, 0.1, 0.0, 1.0] if p.get("dec_fit") else TIGHT_SIZES[:5]),
                               "children": []})
                 t["comp"] = len(comps) - 1
     # organisation
@@ -287,7 +287,9 @@ def gen_model(rng, p, n_tasks=None):
     if p["res_abs"]:
         for tm in teams:
             for w in tm["workers"]:
-                if rng.random() < 0.45:
+                if p.get("worker_abs_dense") and rng.random() < 0.7:
+                    w["abs"] = [k for k in range(0, 12) if rng.random() < 0.4]  # comes and goes
+                elif rng.random() < 0.45:
                     w["abs"] = gen_absence(rng, 14, rng.randint(1, 5))
         for wp in wps:
             for f in wp["facs"]:
